@@ -30,11 +30,25 @@ struct Walk<'a> {
     next_size: usize,
     leaves: usize,
     multi_update_leaves: usize,
+    /// a long-lived worker hasher that is re-seeded for every leaf (clone_from a template / reset) instead of a
+    /// fresh hasher per leaf: used when the case has an odd number of split decisions
+    worker: Option<blake3::Hasher>,
 }
 
 impl<'a> Walk<'a> {
     fn leaf(&mut self, off: usize, len: usize) -> Result<[u8; 32], String> {
-        let mut h = self.c.mode.hasher();
+        let reuse = self.c.splits.len() % 2 == 1;
+        let mut h = match (reuse, self.worker.take()) {
+            (true, Some(mut w)) => {
+                if self.leaves % 2 == 0 {
+                    w.clone_from(&self.c.mode.hasher());
+                } else {
+                    w.reset();
+                }
+                w
+            }
+            _ => self.c.mode.hasher(),
+        };
         h.set_input_offset(off as u64);
         let mut done = 0usize;
         let mut updates = 0;
@@ -56,7 +70,10 @@ impl<'a> Walk<'a> {
         }
         let cv = h.finalize_non_root();
         let want = b3spec::subtree_cv(&self.kf, &self.data[off..off + len], (off / 1024) as u64);
-        eq_bytes(&format!("subtree CV of bytes [{}, {}) at chunk {}", off, off + len, off / 1024), &cv, &want)?;
+        eq_bytes(&format!("subtree CV of bytes [{}, {}) at chunk {}{}", off, off + len, off / 1024, if reuse { " (re-seeded worker hasher)" } else { "" }), &cv, &want)?;
+        if reuse {
+            self.worker = Some(h);
+        }
         Ok(cv)
     }
 
@@ -110,7 +127,7 @@ fn check_root(mode: &ModeC, data: &[u8], left: &[u8; 32], right: &[u8; 32]) -> R
 
 pub fn check_tree(c: &TreeCase) -> Result<(), String> {
     let data = c.content.expand(c.len);
-    let mut w = Walk { c, data: &data, kf: c.mode.kf(), next_split: 0, next_size: 0, leaves: 0, multi_update_leaves: 0 };
+    let mut w = Walk { c, data: &data, kf: c.mode.kf(), next_split: 0, next_size: 0, leaves: 0, multi_update_leaves: 0, worker: None };
     let (left, right, _) = w.node(0, c.len, true)?;
     check_root(&c.mode, &data, &left, &right)
 }
@@ -355,7 +372,7 @@ pub fn subs() -> Vec<Box<dyn DynSub>> {
     vec![
         Box::new(PropSub::<TreeCase> {
             name: "decompositions",
-            rule: "proptest: (mode incl. new_from_context_key, input 1025 B..256 KiB quick / 4 MiB thorough, depth-first split decisions, per-leaf update sizes): every node is either hashed as one subtree (set_input_offset + updates + finalize_non_root, CV compared with the spec subtree CV) or split at left_subtree_len and merged; root via merge_subtrees_root and _root_xof vs spec whole-input hash/XOF and the crate's own hash; non-trivial = >=3 leaves, one of them multi-chunk, generated update splits",
+            rule: "proptest: (mode incl. new_from_context_key, input 1025 B..256 KiB quick / 4 MiB thorough, depth-first split decisions, per-leaf update sizes): every node is either hashed as one subtree (a fresh hasher, or in half of the cases one long-lived worker re-seeded per leaf by clone_from(template) / reset(); set_input_offset + updates + finalize_non_root, CV compared with the spec subtree CV) or split at left_subtree_len and merged; root via merge_subtrees_root and _root_xof vs spec whole-input hash/XOF and the crate's own hash; non-trivial = >=3 leaves, one of them multi-chunk, generated update splits",
             cases: (16_000, 120_000),
             strategy: tree_strategy,
             classify: classify_tree,
